@@ -2,12 +2,15 @@
    requests:  slices <0|1> <hex text> <occ> <window> <max>   → panic | ok <slices>
                  first arg: 0 = code as found, 1 = with fixes/C35.diff
                  <occ>, <slices>: `-` (empty) or `s:e,s:e,...` (decimal)
+              slicesc <0|1> <hex text> <occ> <window> <max>  → same, from the char-level transcription (SnippetChars.computeC)
               windows <0|1> <hex text> <occ> <window>        → per occurrence `ss:se` (after adjustment, before the
                                                                emptiness test) or `panic`, comma separated
+              utf8 <hex bytes>                               → <0|1>   (SnippetChars.validUtf8b = the hypothesis ValidUtf8)
               boundary <hex text> <idx>                      → <0|1> <prev> <next>   (is_char_boundary, prev/next_char_boundary)
               advance <hex text> <start> <window>            → panic | <n>
 -/
 import MvModel.Snippet
+import MvModel.SnippetChars
 import MvModel.DrvUtil
 open Mv Mv.Snippet
 
@@ -34,6 +37,14 @@ def step (_ : Unit) (ws : List String) : Unit × String :=
       | none => ((), "panic")
       | some r => ((), "ok " ++ showPairs r)
     | _, _, _, _ => ((), "bad-op")
+  | ["slicesc", fx, h, occ, w, m] =>
+    match ofHex h, parsePairs occ, w.toNat?, m.toNat? with
+    | some c, some occ, some w, some m =>
+      if fx != "0" && fx != "1" then ((), "bad-op") else
+      match computeC (fx == "1") c occ w m with
+      | none => ((), "panic")
+      | some r => ((), "ok " ++ showPairs r)
+    | _, _, _, _ => ((), "bad-op")
   | ["windows", fx, h, occ, w] =>
     match ofHex h, parsePairs occ, w.toNat? with
     | some c, some occ, some w =>
@@ -42,6 +53,10 @@ def step (_ : Unit) (ws : List String) : Unit × String :=
         | some (a, b) => s!"{a}:{b}"
       ((), if ws.isEmpty then "-" else ",".intercalate ws)
     | _, _, _ => ((), "bad-op")
+  | ["utf8", h] =>
+    match ofHex h with
+    | some c => ((), if validUtf8b c then "1" else "0")
+    | none => ((), "bad-op")
   | ["boundary", h, i] =>
     match ofHex h, i.toNat? with
     | some c, some i =>
